@@ -51,7 +51,9 @@ class DynamicFilterExpression:
         # in the current context. Thus, if user calls `{% load %}` inside
         # the expression, it won't spill outside.
         tokens = parse_template(self.expr)
-        expr_parser = Parser(tokens=tokens)
+        # NOTE: Tags like `{% include %}` read `parser.origin`, so the nested parser
+        #       inherits the origin of the template in which the expression is written.
+        expr_parser = Parser(tokens=tokens, origin=parser.origin)
         expr_parser.tags = {**parser.tags}
         expr_parser.filters = {**parser.filters}
 
